@@ -523,6 +523,9 @@ class BaseNetQASMConnection(abc.ABC):
 
         subroutine = self._builder.subrt_compile_subroutine(protosubroutine)
 
+        # The pending commands have been consumed, just like when flushing.
+        self._builder._reset()
+
         return subroutine
 
     def commit_protosubroutine(
